@@ -324,4 +324,10 @@ def R5_tables(ctx):
     ctx.check(len(rr) == 1, "geometry:read_raw_file", "the geometry table is not read with read_raw_file", b.where(), detail="read_raw_file(geometry file, parse_linestring)")
 
 
-RULES = [R1_formats, R2_geometry, R3_trees, R4_identifiers, R5_tables]
+def R6_readers(ctx):
+    """the row-aligned tables (geometries, identifiers) are read by readers that keep every row, plain or gzip (shared with C15.R3)"""
+    from props.C15 import R3_counts_and_readers
+    R3_counts_and_readers(ctx)
+
+
+RULES = [R1_formats, R2_geometry, R3_trees, R4_identifiers, R5_tables, R6_readers]
